@@ -235,6 +235,7 @@ def handle (j : Json) : Json :=
     | .raisedAtCall => true
     | .awaited _ => false
   Json.mkObj [("model", outcomeJson out), ("spec", spec), ("ret", ret), ("decl_ok", Json.bool (declOk full (mkOpts o))),
-              ("reserve", Json.bool (firstReserve ctx full)), ("raised_at_call", Json.bool atCall)]
+              ("reserve", Json.bool (firstReserve ctx full)), ("raised_at_call", Json.bool atCall),
+              ("dfs", Json.bool (useDfs W0 full (mkOpts o)))]
 
 def main : IO Unit := serve handle
